@@ -3,6 +3,7 @@ package main
 import (
 	"encoding/json"
 	"fmt"
+	"runtime"
 	"time"
 
 	"github.com/libsv/go-bt/v2"
@@ -128,14 +129,14 @@ type prevSpec struct {
 	Lock *[]byte `json:"lock"`
 }
 type optsSpec struct {
-	Lock    *[]byte   `json:"lock"`
-	Unlock  *[]byte   `json:"unlock"`
-	Prev    *prevSpec `json:"prev"`
-	Tx      *txSpec   `json:"tx"`
-	Idx     int       `json:"idx"`
-	Flags   uint32    `json:"flags"`
-	NoWithTx bool     `json:"no_with_tx"`
-	NoWithScripts bool `json:"no_with_scripts"`
+	Lock          *[]byte   `json:"lock"`
+	Unlock        *[]byte   `json:"unlock"`
+	Prev          *prevSpec `json:"prev"`
+	Tx            *txSpec   `json:"tx"`
+	Idx           int       `json:"idx"`
+	Flags         uint32    `json:"flags"`
+	NoWithTx      bool      `json:"no_with_tx"`
+	NoWithScripts bool      `json:"no_with_scripts"`
 }
 
 func scr(b *[]byte) *bscript.Script {
@@ -346,6 +347,37 @@ func badContexts(r *common.Rand) {
 	}
 }
 
+// hugeCounts: script-supplied counts are not a licence to allocate: a few bytes of script whose count operand is
+// far beyond what the stack holds must fail without reserving memory for that many items (an unrecoverable
+// out-of-memory error is a crash). Counts are kept at 2^20..2^26 so that an implementation that does reserve
+// the memory is measured (hundreds of MB) rather than killing the harness.
+func hugeCounts() {
+	for _, n := range []uint32{1 << 20, 1 << 24, 1 << 26} {
+		cnt := interpgen.Push(interpgen.NumEnc(int64(n)))
+		for _, lock := range [][]byte{
+			append(append([]byte{}, cnt...), 0xae),                     // <n> CHECKMULTISIG
+			append(append([]byte{}, cnt...), 0xaf),                     // <n> CHECKMULTISIGVERIFY
+			append(append(append([]byte{0x51}, cnt...), cnt...), 0xae), // 1 <n> <n> CHECKMULTISIG
+			append(append(append([]byte{0x00}, 0x00), cnt...), 0xae),   // 0 0 <n> CHECKMULTISIG
+		} {
+			p := (&interpgen.Program{Unlock: []byte{0x00}, Lock: lock, Flags: interpgen.FGenesis, HasTx: true, HasPrev: true, TxVersion: 1, InSeq: 0xffffffff, Kind: "huge-count"}).Fix()
+			var m0, m1 runtime.MemStats
+			runtime.GC()
+			runtime.ReadMemStats(&m0)
+			obs, msg := interpgen.RunPlain(p)
+			runtime.ReadMemStats(&m1)
+			c.Tally("huge-count/" + obs)
+			if obs == "panic" {
+				c.Violate("Engine.Execute/panic", msg, p)
+			}
+			if d := m1.TotalAlloc - m0.TotalAlloc; d > 32<<20 {
+				c.Violate("Engine.Execute/allocates-from-a-script-supplied-count", fmt.Sprintf("%d MB allocated for a %d-byte script whose count operand is %d (the stack holds at most 3 items)", d>>20, len(lock), n), p)
+			}
+			c.Case("", p, key(p), true)
+		}
+	}
+}
+
 func runC07() {
 	r := common.NewRand(c.Seed)
 	nRand, nMut, nOp := 900, 500, 2
@@ -353,6 +385,7 @@ func runC07() {
 		nRand, nMut, nOp = 60000, 30000, 40
 	}
 	badContexts(r)
+	hugeCounts()
 	interpgen.BigNumSweep(func(p *interpgen.Program) { emitOrGoOnly(p) })
 	interpgen.ScriptBoundary(func(p *interpgen.Program) { emitOrGoOnly(p) })
 	nShapes := 1200
@@ -413,7 +446,7 @@ func runC07() {
 			}
 		}
 	}
-	c.Stats.Rule = "big-number operand sweep; 1200 signature-opcode shapes with a full transaction context (junk signatures/keys, code separators in either script, early OP_RETURN in the unlocking script; implementation only); arbitrary byte strings as unlocking/locking scripts, mutations (bit flip, truncate, splice, byte replace) of the node vectors, every opcode 0..255 with 0..3 arbitrary operands and arbitrary trailing bytes; 16-bit flag words; contexts {no tx, tx + previous output, tx without previous output}; plus ~1 400 (thorough ~8 200) argument combinations of Engine.Execute (nil / empty / mismatching scripts, nil transaction, 0..3 inputs with or without their own unlocking script, nil or script-less previous output, input indices MinInt64..MaxInt64) run with and without a debugger on the implementation and through validate/apply of model/ExecOpts.v on the model. Programs with signature opcodes under a full tx context and P2SH under a full context run on the implementation only (go-only); everything else is also evaluated on the Coq model. After Genesis OP_NUM2BIN is replaced by OP_NOP (its target size is an attacker-chosen allocation up to 2^31-1 bytes: memory policy, out of scope). distinct = distinct (scripts, flags, context); non-trivial = all (every case exercises validation or execution)"
+	c.Stats.Rule = "big-number operand sweep; OP_CHECKMULTISIG with count operands 2^20..2^26 on a near-empty stack (must fail without reserving memory: allocation measured); 1200 signature-opcode shapes with a full transaction context (junk signatures/keys, code separators in either script, early OP_RETURN in the unlocking script; implementation only); arbitrary byte strings as unlocking/locking scripts, mutations (bit flip, truncate, splice, byte replace) of the node vectors, every opcode 0..255 with 0..3 arbitrary operands and arbitrary trailing bytes; 16-bit flag words; contexts {no tx, tx + previous output, tx without previous output}; plus ~1 400 (thorough ~8 200) argument combinations of Engine.Execute (nil / empty / mismatching scripts, nil transaction, 0..3 inputs with or without their own unlocking script, nil or script-less previous output, input indices MinInt64..MaxInt64) run with and without a debugger on the implementation and through validate/apply of model/ExecOpts.v on the model. Programs with signature opcodes under a full tx context and P2SH under a full context run on the implementation only (go-only); everything else is also evaluated on the Coq model. After Genesis OP_NUM2BIN is replaced by OP_NOP (its target size is an attacker-chosen allocation up to 2^31-1 bytes: memory policy, out of scope). distinct = distinct (scripts, flags, context); non-trivial = all (every case exercises validation or execution)"
 }
 
 // neutralise replaces OP_NUM2BIN at opcode positions by OP_NOP.
